@@ -6,6 +6,7 @@ import (
 	"encoding/xml"
 	"fmt"
 	"io"
+	"path"
 	"strconv"
 	"strings"
 
@@ -209,7 +210,7 @@ func resolveWorkbookTarget(target string) string {
 	if strings.HasPrefix(target, "xl/") {
 		return target
 	}
-	return "xl/" + target
+	return path.Clean("xl/" + target)
 }
 
 // parseStyles parses the styles file.
@@ -243,7 +244,9 @@ func (r *Reader) parseWorksheets() error {
 		if !strings.HasPrefix(target, "xl/") && !strings.HasPrefix(target, "/") {
 			target = "xl/" + target
 		}
-		target = strings.TrimPrefix(target, "/")
+		// A relative target may climb out of xl/ ("../parts/s1.xml"): part names
+		// hold no dot segments, so they are resolved here
+		target = path.Clean(strings.TrimPrefix(target, "/"))
 
 		data, err := r.getFileContent(target)
 		if err != nil {
